@@ -179,6 +179,23 @@ pub fn run(thorough: bool) -> Vec<Part> {
         t.sample(json!({"edge_values": vals}));
         t.record(&mut part, "numeric-edge-values");
     }
+    // URIs with a multi-byte character starting at every byte offset 0..40 (2-, 3- and 4-byte
+    // characters), in origin form and behind http:// / HTTP:// / an authority, 0..3 bytes after it
+    {
+        let mut t = crate::par::Tally::default();
+        for ch in ["\u{e9}", "\u{20ac}", "\u{1f600}"] {
+            for k in 0..=40usize {
+                for j in 0..=3usize {
+                    for pre in ["/", "", "http://", "HTTP://", "http://h/", "hTtp:/"] {
+                        let uri = format!("{}{}{}{}", pre, "a".repeat(k), ch, "b".repeat(j));
+                        let input = format!("GET {} HTTP/1.1\r\n\r\n", uri).into_bytes();
+                        entry_points(&input, &mut t, "URI with a multi-byte character at every offset");
+                    }
+                }
+            }
+        }
+        t.record(&mut part, "uri-multibyte-offsets");
+    }
     // large inputs through the connection (real buffer)
     let mut bad_line = b"GET / HTTP/1.1\r\nX-a: ".to_vec();
     while bad_line.len() < 16 + 1100 {
@@ -213,6 +230,14 @@ pub fn run(thorough: bool) -> Vec<Part> {
             v.extend(std::iter::repeat(b'b').take(65536));
             v
         }, u32::MAX as usize),
+        ("pipelined bodies of 5000, 2000, 1500, 3000, 1100, 40 and 1025 bytes on one connection", {
+            let mut v = vec![];
+            for (i, n) in [5000usize, 2000, 1500, 3000, 1100, 40, 1025].iter().enumerate() {
+                v.extend_from_slice(format!("PUT /b{} HTTP/1.1\r\nContent-Length: {}\r\n\r\n", i, n).as_bytes());
+                v.extend(std::iter::repeat(b'a' + i as u8).take(*n));
+            }
+            v
+        }, 51200),
         ("1000 pipelined requests", {
             let mut v = vec![];
             for i in 0..1000 {
